@@ -105,6 +105,11 @@ def census(ctx, events_path, expect, families=False):
             if k in e:
                 kk = '%s.%s.%s' % (e['op'], k, e['ty'])
                 worst[kk] = max(worst[kk], e[k])
+    # Vacuity is a statement about the CHECK, not about the code under test: every call is logged as an event even when
+    # it panics or returns garbage (then the trace specification rejects it), so the counts below do not depend on the
+    # implementation; and they are only enforced when validation reported nothing.
+    if ctx.violations:
+        return cnt, worst
     for k in expect:
         if cnt[k] == 0:
             raise vlib.ToolError('no %s/%s event in %s: a branch of Trace_Gauss is not exercised' % (k[0], k[1], events_path))
